@@ -98,6 +98,7 @@ type fnExec struct {
 	rangeNames    map[string]*rangeState
 	inputConsts   []string
 	inputLeaves   []inputLeaf
+	tablesUsed    map[string]bool
 }
 
 func (fx *fnExec) declare(name, sort string) {
@@ -459,12 +460,12 @@ func (fx *fnExec) loadIn(st *State, ad Ad, facts bool) SV {
 		for _, ix := range ad.Idx {
 			t = tSel(t, ix)
 		}
-		if facts {
+		if facts || !strings.Contains(t.S, "$q") {
 			fx.rangeFact(t, l)
 		}
 		return t
 	})
-	if facts {
+	if facts || !svMentionsBound(v) {
 		fx.wfValue(v)
 	}
 	if len(rest) > 0 {
@@ -1380,3 +1381,12 @@ func (fx *fnExec) panicSite(where, what string) {
 }
 
 var _ = big.NewInt
+
+func svMentionsBound(v SV) bool {
+	for _, t := range flatten(v) {
+		if strings.Contains(t.S, "$q") {
+			return true
+		}
+	}
+	return false
+}
